@@ -69,7 +69,13 @@ func jsonAct(s ast.Stmt) string {
 	return unknown()
 }
 
+// the file being read (for the one-level inlining of small helpers)
+var jsonFile *ast.File
+
 func jsonActs(stmts []ast.Stmt) string {
+	if jsonFile != nil {
+		stmts = inlineHelpers(jsonFile, stmts)
+	}
 	xs := make([]string, len(stmts))
 	for i, s := range stmts {
 		xs[i] = jsonAct(s)
@@ -94,6 +100,7 @@ func jsonDelimited(fd *ast.FuncDecl) string {
 func genJSON() string {
 	const file = "serialization/jsonstreamer.go"
 	f := parseFile(file)
+	jsonFile = f
 	var b strings.Builder
 	b.WriteString(header("json", file))
 	b.WriteString("import Pcore.Model.Json\nnamespace Pcore.Generated\nopen Pcore.Json\n\n")
